@@ -314,6 +314,25 @@ class Body:
             return vals[ret]
         return None
 
+    def tuple_field_defs(self, local, idx):
+        """For a local assigned a tuple aggregate in several places (`let (a, b) = if c { (x, y) } else { (u, v) };`):
+        [(block, operand of component idx)] over all its definitions, or None when some definition is not a tuple literal."""
+        out = []
+        for (bi, si, n) in self.whole_defs(local):
+            if si == "t":
+                return None
+            rv = n["r"]
+            if rv["k"] == "agg" and rv.get("ak") == "tuple" and idx < len(rv["ops"]):
+                out.append((bi, rv["ops"][idx]))
+            elif rv["k"] == "use" and "p" in rv["o"] and len(rv["o"]["p"]) == 1:
+                sub = self.tuple_field_defs(rv["o"]["p"][0], idx)
+                if sub is None:
+                    return None
+                out += sub
+            else:
+                return None
+        return out or None
+
     def is_reassigned(self, param):
         return bool(self.whole_defs(param))
 
